@@ -2,7 +2,7 @@
 
 case = {
   "spec":        model spec (plain JSON; K-matrix keys as "to|from" strings),
-  "parameters":  {group: [[label, value, {opts}], ...]},
+  "parameters":  {group: [[label, value, {opts}], ...]},   (opts may hold "_rel": scale of the start-value perturbation)
   "datasets":    {label: {"time": [...], "spectral": [...], "noise": float, "noise_seed": int}},
   "clp_seed":    int,
   "perturb":     [factors applied to the free parameters for the start values of a fit],
@@ -29,7 +29,7 @@ from hypothesis import strategies as st
 RATES = [0.15, 0.45, 1.3, 4.0, 0.25, 0.7, 2.0, 6.0, 0.1, 0.33, 1.0, 3.0]
 FREQS = [15.0, 28.0, 40.0, 52.0, 21.0, 34.0, 46.0, 58.0]
 OSC_RATES = [0.3, 0.7, 0.15, 1.1, 0.45, 0.9, 0.2, 0.55]
-PFID_FREQS = [1490.0, 1502.0, 1511.0, 1497.0, 1485.0, 1518.0]
+PFID_FREQS = [1492.5, 1502.5, 1512.5, 1497.5, 1487.5, 1517.5]  # never on a point of the spectral grid (the sine column vanishes there)
 PFID_RATES = [-2.0, -1.2, -3.1, -0.8, -1.7, -2.6]
 SPECTRAL_POOL = [1480.0 + 5.0 * i for i in range(9)]  # cm^-1, exact
 SPECTRAL_DENSE = [1480.0 + 2.5 * i for i in range(17)]  # model axis of spectral megacomplexes
@@ -168,7 +168,8 @@ class _Builder:
         self.spec["megacomplex"][label] = {
             "type": kind,
             "labels": list(osc_labels),
-            "frequencies": [self.par(g, f"f_{o}", F[(i + offset) % len(F)]) for i, o in enumerate(osc_labels)],
+            # "_rel": scale of the relative perturbation of the start values of a fit (a pfid frequency is an absolute position)
+            "frequencies": [self.par(g, f"f_{o}", F[(i + offset) % len(F)], **({"_rel": 0.01} if kind == "pfid" else {})) for i, o in enumerate(osc_labels)],
             # PFID dephasing rates are negative by definition: keep the optimiser inside that domain
             "rates": [self.par(g, f"r_{o}", R[(i + offset) % len(R)], **({"max": -0.05} if kind == "pfid" else {})) for i, o in enumerate(osc_labels)],
         }
@@ -192,7 +193,7 @@ class _Builder:
             item = {"type": kind}
             if kind in ("gaussian", "skewed-gaussian"):
                 item["amplitude"] = self.par(g, f"a_{s}", 1.0 + 0.5 * ((i + offset) % 3), vary=False)
-                item["location"] = self.par(g, f"l_{s}", 1486.0 + 7.0 * ((i + 2 * offset) % 5))
+                item["location"] = self.par(g, f"l_{s}", 1486.0 + 7.0 * ((i + 2 * offset) % 5), _rel=0.02)
                 item["width"] = self.par(g, f"w_{s}", 8.0 + 3.0 * ((i + offset) % 3))
                 if kind == "skewed-gaussian":
                     item["skewness"] = self.par(g, f"k_{s}", 0.3, vary=False)
@@ -403,21 +404,22 @@ def draw_perm(draw, spec, *, allow_split=False, rich=True):
 
 
 @st.composite
-def time_models(draw, *, for_fit=False, allow_split=False, with_perm=True):
+def time_models(draw, *, for_fit=False, allow_split=False, with_perm=True, compose=False):
     """Models whose datasets have model dimension ``time``: up to 3 megacomplexes per dataset out of
     decay / decay-parallel / decay-sequential (sharing compartments or not), damped-oscillation, pfid,
     baseline, coherent-artifact; no / Gaussian / multi-Gaussian / dispersed Gaussian IRF."""
     b = _Builder()
     rot = draw(st.integers(0, len(RATES) - 1))
     b._rate_i = rot
-    n_ds = draw(st.integers(1, 2 if for_fit else 3))
+    n_ds = draw(st.sampled_from([1, 1, 2] if for_fit else [1, 1, 2, 2, 3]))
     irf_kind = draw(st.sampled_from(["none", "gaussian", "gaussian", "multi-gaussian", "spectral-gaussian", "spectral-gaussian"]))
     irf = b.irf(irf_kind, center=draw(st.sampled_from([0.3, 0.1, 0.45])), width=draw(st.sampled_from([0.1, 0.2, 0.07])))
     max_lab = 3 if for_fit else 4
     species = ["s1", "s2", "s3", "s4", "s5"]
     # --- pool of megacomplexes
     pool = []
-    decay_kind = draw(st.sampled_from(["decay", "decay", "decay-parallel", "decay-parallel", "decay-sequential", "two-decay", "par+seq", "par+par", "decay+par"]))
+    decay_kind = draw(st.sampled_from(["par+seq", "par+par", "par+seq", "decay+par", "two-decay", "decay", "decay-sequential"] if compose else
+                                      ["decay", "decay", "decay-parallel", "decay-parallel", "decay-sequential", "two-decay", "par+seq", "par+par", "decay+par"]))
     inputs = {}
     if decay_kind in ("decay", "two-decay", "decay+par"):
         n1 = draw(st.integers(1, max_lab))
@@ -441,13 +443,17 @@ def time_models(draw, *, for_fit=False, allow_split=False, with_perm=True):
         pool.append("mc_d1")
     else:
         n1, n2 = draw(st.integers(1, 3)), draw(st.integers(1, 2))
-        overlap = draw(st.integers(0, 1))
+        overlap = draw(st.sampled_from([1, 1, 0])) if compose else draw(st.integers(0, 1))
         c1 = species[:n1]
         c2 = species[max(0, n1 - overlap) : max(0, n1 - overlap) + n2]
         b.decay_parallel("mc_d1", c1)
         (b.decay_sequential if decay_kind == "par+seq" else b.decay_parallel)("mc_d2", c2)
         pool += ["mc_d1", "mc_d2"]
-    extras = draw(st.lists(st.sampled_from(["doas", "doas", "doas2", "pfid", "baseline", "coh"]), max_size=3, unique=True))
+    extras = [e for e in ("doas", "pfid", "baseline", "coh") if draw(st.booleans())]
+    if "doas" in extras and draw(st.booleans()):
+        extras.append("doas2")
+    if compose and not extras:
+        extras = ["doas", "baseline"]
     if irf is None:
         extras = [e for e in extras if e not in ("pfid", "coh")]
     if "doas2" in extras and "doas" not in extras:
@@ -479,7 +485,7 @@ def time_models(draw, *, for_fit=False, allow_split=False, with_perm=True):
     first_spectral = None
     for i in range(n_ds):
         lab = ["dataset_1", "dataset_2", "dataset_3"][i]
-        k = draw(st.integers(1, min(3, len(pool))))
+        k = min(len(pool), 3 if compose else draw(st.sampled_from([1, 2, 2, 3, 3, 3])))
         if i == 0 or draw(st.booleans()):
             mcs = list(draw(st.permutations(pool)))[:k]
         else:
@@ -624,7 +630,8 @@ def twin_cases(for_fit=False):
 
 
 def compose_cases():
-    return st.one_of(time_models(with_perm=False), time_models(with_perm=False), spectral_models(with_perm=False))
+    return st.one_of(time_models(with_perm=False, compose=True), time_models(with_perm=False, compose=True), time_models(with_perm=False),
+                     spectral_models(with_perm=False))
 
 
 # ------------------------------------------------------------------------------------------
